@@ -81,6 +81,9 @@ TABLE_CLOSURE = {'primitive': "(fun '(op, p) => primitive_tbl op p)", 'partial':
                  'tilde': "(fun '(gt, p) => tilde_tbl (match gt with Some _ => true | None => false end) p)", 'caret': '(fun p => caret_tbl p)'}
 FOLD_TOKENS = "let mut comparators = bs . into_iter ( ) . flatten ( ) ; let Some ( first ) = comparators . next ( ) else { return Vec :: new ( ) ; } ; comparators . try_fold ( first , | acc , bs | acc . intersect ( & bs ) ) . into_iter ( ) . collect ( )".split()
 
+# the value of an empty alternative: what the partial version `*` gives (`>=0.0.0`), as a list
+STAR_TOKENS = "BoundSet :: at_least ( Predicate :: Including ( ( 0 , 0 , 0 ) . into ( ) ) ) . into_iter ( ) . collect ( )".split()
+
 class EP:
     def __init__(self, src, fname, strings):
         self.src = src; self.fname = fname; self.strings = strings
@@ -150,6 +153,7 @@ class EP:
         p = params[0]
         if body[0] == 'blockraw':
             if body[1] == FOLD_TOKENS and p == ('name', 'bs'): return '(fun bs => and_fold (flatten_opts bs))'
+            if body[1] == STAR_TOKENS and p[0] == 'wild': return '(fun _ => opt_to_list (at_least (Including (v3 0 0 0))))'
             raise Unsupported('closure with a block body that is not the comparator fold of range()')
         raw = body[2]; b = body[1]
         if b[0] == 'match':
@@ -157,6 +161,7 @@ class EP:
             if b[1] != ('var', p[1] if p[0] in ('var', 'name') else None): raise Unsupported('the table closure does not match on its parameter')
             return TABLE_CLOSURE[self.fname]
         pat = '_' if p[0] == 'wild' else ("'" + self.tuple_pat(p[1]) if p[0] == 'tuple' else T.ident(p[1]))
+        if raw == STAR_TOKENS and p[0] == 'wild': return '(fun _ => opt_to_list (at_least (Including (v3 0 0 0))))'
         if raw == ['(', ')']: return '(fun %s => tt)' % pat
         if raw == ['None']: return '(fun %s => None)' % pat
         if len(raw) == 1 and raw[0] in T.CTOR: return '(fun %s => %s)' % (pat, T.CTOR[raw[0]])
@@ -227,7 +232,7 @@ SPEC = {
              'destruct (terminated_p tilde_p s); [reflexivity|]. destruct (terminated_p caret_p s); reflexivity'),
   'logical_or': ('logical_or', 'parser unit', 'logical_or_pm', 'unfold logical_or. comb_unfold. comb_split'),
   'range': ('range', 'parser (list boundset)', 'range_p',
-            'unfold range_p, p_bind, p_space0. cbn [p_alt]. rewrite separated0_simples. unfold p_map, p_terminated, p_map, p_pair. set (t := space0 s). '
+            'unfold range_p, p_bind, p_space0. cbn [p_alt]. rewrite separated0_simples. unfold p_map, p_terminated, p_map, p_pair. set (t := space0 s). rewrite empty_alt_ok. unfold star_bs. destruct (at_empty_alt t); [reflexivity|]. '
             'destruct (hyphen_p t) as [[b r]|] eqn:E; [|destruct (simples_p t); reflexivity]. rewrite alt_end_ok. destruct (at_alt_end r); [reflexivity|]. destruct (simples_p t); reflexivity'),
   'bound_sets': ('bound_sets', 'parser (list boundset)', 'bound_sets', 'apply separated0_ranges'),
 }
